@@ -9,6 +9,7 @@ def explore(run, lean):
     # template functions shared with another chart object that nests them differently
     run.factory_key = "C02"
     factory_corr.explore(run, 60 if run.tier == "quick" else 1500)
+    hsm_corr.explore_literal_depths(run, "C02")
     run.extra["rule"] = ("random charts (1-14 states, 40% deep chains), scripts of start_at + 1-6 dispatch/is_in/child_state ops; "
                          "non-trivial = contains at least one step that the spec answers with handled/ignored; "
                          "distinct by canonical JSON of (chart, ops, host)")
